@@ -28,6 +28,8 @@ TEXT_ATOMS = {
     "settings.serialization.exclude_defaults": "exclude_defaults",
     "settings.serialization.exclude_none": "exclude_none",
     "typed_dict": "typed_dict",
+    "is_typed_dict(get_origin_or_type(tp))": "typed_dict",
+    "is_typed_dict(cls)": "typed_dict",
     "exclude_unset": "exclude_unset",
     "field_alias is None": "aggregate",
     "field.is_aggregate": "aggregate",
